@@ -198,7 +198,7 @@ def w_main(pat: int, eset: int, shift: int, dupe: bool) -> str:
     pre: 0 <= pat < 26 and 0 <= eset < 5 and 0 <= shift < 4
     post: _ == ''
     """
-    return _case(rt.sel(pat, 26), rt.sel(eset, 5), rt.sel(shift, 4), [False, True][dupe])
+    return _case(rt.sel(pat, 26), rt.sel(eset, 5), rt.sel(shift, 4), rt.selb(dupe))
 
 
 def obligations(tier):
